@@ -523,9 +523,15 @@ class Engine:
                 return VTuple([VInt(o.rows), VInt(o.cols)])
             if isinstance(o, HSeq) and node.attr == "T":
                 return base
+            if isinstance(o, H2D) and node.attr == "T":
+                g_ = o.get
+                return st.alloc(H2D(o.cols, o.rows, lambda r, c: g_(c, r), etype=o.etype))
             return VConc("method:" + node.attr, (base,))
         if isinstance(base, (VStr, VLabel, VFloat, VInt, VTuple, VFn)):
             return VConc("method:" + node.attr, (base,))
+        if isinstance(base, VMaybeNone) and isinstance(base.val, (VStr, VLabel)):
+            self.oblige(st, "attribute access on a value that is not None", z3.Not(base.isnone), "safety", node)
+            return VConc("method:" + node.attr, (base.val,))
         raise Unsupported("attribute %s of %r (line %d)" % (node.attr, base, node.lineno))
 
     def ev_UnaryOp(self, node, st):
@@ -647,15 +653,11 @@ class Engine:
             return z3.And(z3.Not(b.isnone), self.py_eq(a, b.val, st))
         return veq(a, b)
 
-    _labels = {}
+    _labels = VV.LABELS
 
     def label_of(self, s):
         """Concrete string as a Label constant; distinct strings are distinct labels."""
-        if s not in Engine._labels:
-            c = z3.Const("lbl:" + s, Label)
-            Engine._labels[s] = c
-            self._label_axioms_dirty = True
-        return Engine._labels[s]
+        return VV.label_const(s)
 
     def label_axioms(self):
         cs = list(Engine._labels.values())
@@ -900,6 +902,8 @@ class Engine:
         return self.subscript(base, node.slice, st, node)
 
     def subscript(self, base, sl, st, node):
+        if isinstance(base, (VLabel, VStr)) and isinstance(sl, ast.Slice):
+            return self.slice_of(base, sl, st, node)
         if isinstance(base, VMaybeNone):
             self.oblige(st, "subscripted value is not None", z3.Not(base.isnone), "safety", node)
             base = base.val
@@ -998,6 +1002,18 @@ class Engine:
             hi = self.ev(sl.upper, st) if sl.upper is not None else VInt(len(base.items))
             if z3.is_int_value(lo.t) and z3.is_int_value(hi.t):
                 return VTuple(base.items[lo.t.as_long():hi.t.as_long()])
+        if isinstance(base, VRef) and isinstance(st.heap[base.addr], HRec):
+            o = st.heap[base.addr]
+            lo, hi = self.slice_bounds(o.len, sl, st)
+            n = z3.If(hi > lo, hi - lo, 0)
+            return st.alloc(HSeq(n, lambda k, a=base.addr: VRecRef(a, k + lo)))
+        if isinstance(base, (VLabel, VStr)) and sl.upper is None and sl.step is None and sl.lower is not None:
+            lo = self.ev(sl.lower, st)
+            if isinstance(base, VStr) and isinstance(lo, VInt) and z3.is_int_value(lo.t):
+                return VStr(base.s[lo.t.as_long():])
+            if isinstance(lo, VInt):
+                from .models import STRTAIL
+                return VLabel(STRTAIL(base.t if isinstance(base, VLabel) else self.label_of(base.s), lo.t))
         raise Unsupported("slice of %r (line %d)" % (base, node.lineno))
 
     def ev_ListComp(self, node, st):
